@@ -7,6 +7,17 @@ use std::collections::BTreeSet;
 
 pub const CWD: &str = "outer/proj";
 
+/// Set once at start-up: the thorough tier draws larger worlds.
+pub static THOROUGH: std::sync::atomic::AtomicBool = std::sync::atomic::AtomicBool::new(false);
+
+fn max_files(quick: u64, thorough: u64) -> u64 {
+    if THOROUGH.load(std::sync::atomic::Ordering::Relaxed) {
+        thorough
+    } else {
+        quick
+    }
+}
+
 // ---------------------------------------------------------------------------------------------
 // source pool
 
@@ -358,7 +369,7 @@ fn maybe_cwd_config(rng: &mut Rng, w: &mut World) {
 pub fn gen_status(rng: &mut Rng) -> Case {
     let mut w = base_world();
     maybe_cwd_config(rng, &mut w);
-    let n = rng.range(1, 7);
+    let n = rng.range(1, max_files(7, 12));
     let files = populate(
         rng,
         &mut w,
@@ -373,6 +384,7 @@ pub fn gen_status(rng: &mut Rng) -> Case {
         .map(|s| if rng.chance(15) { s.to_uppercase() } else { s.to_string() });
     opts.verify = rng.chance(25);
     opts.verbose = rng.chance(10);
+    opts.color = rng.pick_weighted(&[(None, 70), (Some("always"), 12), (Some("Never"), 10), (Some("AUTO"), 8)]).map(|s| s.to_string());
     if rng.chance(8) {
         opts.range_start = Some(rng.below(10) as usize);
         opts.range_end = Some(10 + rng.below(60) as usize);
@@ -407,7 +419,7 @@ pub fn gen_status(rng: &mut Rng) -> Case {
 pub fn gen_write(rng: &mut Rng) -> Case {
     let mut w = base_world();
     maybe_cwd_config(rng, &mut w);
-    let n = rng.range(1, 7);
+    let n = rng.range(1, max_files(7, 12));
     let files = populate(
         rng,
         &mut w,
@@ -596,7 +608,7 @@ fn gen_select_once(rng: &mut Rng) -> Case {
     let names: &[&str] =
         &["a.lua", "b.lua", "c.lua", "t.spec.lua", "u.spec.lua", "m.luau", "notes.txt", "README", ".hidden.lua", "data.json"];
     let dirs: &[&str] = &["", "sub", "sub/deep", "src", "vendor", ".h", "src/vendor"];
-    let n = rng.range(3, 9);
+    let n = rng.range(3, max_files(9, 16));
     let mut all: Vec<String> = Vec::new();
     let mut tries = 0;
     while (all.len() as u64) < n && tries < 100 {
@@ -750,8 +762,12 @@ pub fn gen_stdin(rng: &mut Rng, big: bool) -> Case {
     opts.check = rng.chance(30);
     if opts.check {
         opts.output_format = rng.pick(&[None, Some("unified"), Some("json"), Some("summary")]).map(|s| s.to_string());
+    } else if rng.chance(15) {
+        // the format option is accepted (and must stay without effect on stdout) in write mode
+        opts.output_format = Some(rng.pick(&["json", "standard"]).to_string());
     }
     opts.verify = rng.chance(30);
+    opts.color = rng.pick_weighted(&[(None, 80), (Some("always"), 10), (Some("never"), 10)]).map(|s| s.to_string());
     if rng.chance(55) {
         opts.stdin_filepath = Some(rng.pick(&["sub/x.lua", "keep.lua", "sub/new.lua", "ignored/y.lua", "sub/ignored/z.lua"]).to_string());
     }
